@@ -118,6 +118,10 @@ def _variant(c, i):
         durs["hop_dur"] = c["h"] / sr
     elif i % 3 == 0:
         durs["hop_dur"] = c["b"] / sr
+    elif i % 3 == 1:
+        # hop_dur < block_dur in seconds although both are the same number of samples: overlap reader with zero overlap
+        durs["block_dur"] = (c["b"] + 0.5) / sr
+        durs["hop_dur"] = (c["b"] + 0.25) / sr
     if c["lim"] >= 0:
         g = (0, 0.25, -0.25)[(i // 5) % 3]
         mr = (c["lim"] + g) / sr
@@ -212,6 +216,12 @@ def gen_history(rng, tier):
             return None
     elif rng.random() < .3:
         durs["hop_dur"] = bd
+    elif rng.random() < .4:
+        for _ in range(50):
+            hd = (b + rng.choice([0.1, 0.2, 0.3, 0.5])) / sr
+            if exact_floor(hd, sr) == (b, True) and hd < bd:
+                durs["hop_dur"] = hd       # same size in samples, shorter in seconds: overlap reader, zero overlap
+                break
     if lim >= 0:
         for _ in range(50):
             mr = max(0.0, (lim + rng.choice([-0.4, -0.3, 0, 0.3, 0.4])) / sr)
